@@ -525,10 +525,10 @@ impl Prop for MemProp {
                 res.notes.insert("wall cap reached before all jobs were explored".into());
                 break;
             }
-            if !seq::pass1(job, shard, &mut counter, &mut res) {
+            if !seq::pass1(job, shard, &mut counter, &mut res, deadline) {
                 break;
             }
-            if ji % shard.1 == shard.0 && !seq::pass2(job, &mut res) {
+            if ji % shard.1 == shard.0 && !seq::pass2(job, &mut res, deadline) {
                 break;
             }
         }
